@@ -12,7 +12,11 @@ RULE = ("(K) timeout in {1,2,3,5,10,30,120} x pool size 1-3 x per-worker heartbe
         "TTIN/TTOU, tick} x schedule vector, on the real Arbiter.run() over a simulated kernel with virtual time; two-sided oracle: a hung "
         "worker gets SIGABRT no later than timeout+2 s after its last heartbeat, SIGKILL within 2 s more if it is still there, is reaped "
         "and the pool is back at target at quiescence; a worker whose heartbeat lag stays within its own bound never receives ABRT/KILL "
-        "from the timeout scan. (R) real servers with short timeouts: see c11_real. non-trivial = a hang event occurred, or a healthy "
+        "from the timeout scan. (H) the real WorkerTmp heartbeat file and the real Arbiter.murder_workers() on a virtual monotonic clock: "
+        "notify() schedules with gaps around 0 / 1 s / 0.5-1.0 x timeout / beyond timeout+1 s, scans once per second at a drawn phase: the file "
+        "always records the latest notify(), no signal while the latest notify() is at most `timeout` old, SIGABRT once it is more than "
+        "timeout+1 s old. (Tidle) the idle gthread loop with 0-2 parked keep-alive connections: heartbeat period < timeout. "
+        "(R) real servers with short timeouts: see c11_real. non-trivial = a hang event occurred, or a healthy "
         "worker had lag > timeout/4; distinct by case hash")
 ASSUMPTIONS = [
     "virtual time advances only in select()/sleep(); the scan runs once per idle second as in Arbiter.run()",
@@ -33,13 +37,117 @@ event = st.one_of(
 
 
 def strategy(tier):
-    return st.fixed_dictionaries({
+    k = st.fixed_dictionaries({
         "engine": st.just("K"),
         "workers": st.integers(1, 3),
         "timeout": st.sampled_from([1, 2, 3, 5, 10, 30, 120]),
         "events": st.lists(event, min_size=1, max_size=10).map(lambda l: [list(e) for e in l]),
         "sched": st.lists(st.integers(0, 11), max_size=60),
     })
+    # engine H: the heartbeat file itself. gaps between the worker's notify() calls as fractions of `timeout` (<1: healthy) or absolute
+    # small values; the arbiter scans once per second at a drawn phase
+    h = st.fixed_dictionaries({
+        "engine": st.just("H"),
+        "timeout": st.sampled_from([1, 2, 3, 5, 30]),
+        "gaps": st.lists(st.one_of(st.sampled_from([0.001, 0.05, 0.3, 0.6, 0.9, 0.99, 1.0, 1.01]),
+                                   st.sampled_from(["0.5T", "0.9T", "0.97T", "0.999T", "1.0T"]),
+                                   st.sampled_from(["T+1.5", "2T+2"])), min_size=1, max_size=12),
+        "phase": st.sampled_from([0.0, 0.001, 0.25, 0.5, 0.75, 0.999]),
+    })
+    return st.one_of(k, k, k, h)
+
+
+def run_heartbeat_file(case):
+    """engine H: real WorkerTmp + real Arbiter.murder_workers() on a virtual monotonic clock. The heartbeat the arbiter reads is the
+    instant of the worker's latest notify(): a worker whose notify() calls are never more than `timeout` apart is never signalled,
+    one that stays silent for more than timeout + 1 s is"""
+    import gunicorn.arbiter as A
+    import gunicorn.workers.workertmp as WT
+    from vlib import penv
+    T = case["timeout"]
+    clock = [5000.0]
+
+    class VTime(object):
+        def __getattr__(self, name):
+            return getattr(__import__("time"), name)
+
+        def monotonic(self):
+            return clock[0]
+
+        def time(self):
+            return clock[0]
+
+    def gap(g):
+        if isinstance(g, str):
+            if g.endswith("T") and "+" not in g:
+                return float(g[:-1]) * T
+            a, b = g.split("+")
+            return (float(a[:-1] or 1) if a.endswith("T") else float(a)) * (T if a.endswith("T") else 1) + float(b)
+        return float(g)
+
+    cfg = penv.make_cfg()
+    saved = (WT.time, A.time)
+    WT.time = A.time = VTime()
+    tmp = None
+    vio = []
+    kills = []
+    try:
+        tmp = WT.WorkerTmp(cfg)
+
+        class W(object):
+            aborted = False
+        w = W()
+        w.tmp = tmp
+        arb = A.Arbiter.__new__(A.Arbiter)
+        arb.timeout = T
+        arb.WORKERS = {4242: w}
+        arb.log = type("L", (), {"critical": lambda self, *a, **k: None})()
+        arb.kill_worker = lambda pid, sig: kills.append((round(clock[0] - 5000.0, 3), int(sig)))
+        tmp.notify()
+        last = clock[0]
+        scan = 5000.0 + case["phase"]
+        worst = 0.0
+        silent_too_long = False
+        for g in case["gaps"]:
+            nxt = last + gap(g)
+            while scan <= nxt:
+                if scan > clock[0]:
+                    clock[0] = scan
+                    arb.murder_workers()
+                    if kills and clock[0] - last <= T - 1e-4:        # (1e-4: the file keeps the instant with nanosecond rounding)
+                        vio.append(Violation("healthy-never-killed", "C11/healthy-worker-signalled:heartbeat-file-stale",
+                                             observed={"timeout": T, "since_last_notify": round(clock[0] - last, 4),
+                                                       "heartbeat_age_seen_by_arbiter": round(clock[0] - tmp.last_update(), 4), "kills": kills[:2],
+                                                       "case": case},
+                                             expected="no signal while the latest notify() is at most `timeout` old"))
+                        break
+                scan += 1.0
+            if vio:
+                break
+            if nxt - last > T + 1.0 and not kills:
+                vio.append(Violation("hung-killed", "C11/silent-worker-not-signalled:heartbeat-file", observed={"timeout": T, "silent_for": nxt - last, "case": case},
+                                     expected="SIGABRT within timeout + 1 s"))
+                break
+            if kills:
+                silent_too_long = True
+                break            # the worker has been told to abort: the history ends here
+            clock[0] = nxt
+            tmp.notify()
+            seen = tmp.last_update()
+            if abs(seen - nxt) > 1e-3:
+                vio.append(Violation("healthy-never-killed", "C11/heartbeat-file-does-not-record-latest-notify",
+                                     observed={"notify_at": round(nxt - 5000.0, 4), "file_says": round(seen - 5000.0, 4), "case": case},
+                                     expected="last_update() == instant of the latest notify()"))
+                break
+            worst = max(worst, nxt - last)
+            last = nxt
+        near = any(0.9 * T <= gap(g) <= T for g in case["gaps"])
+        return Outcome(vio, near or silent_too_long, ["engine:H", "timeout:%d" % T, "near-timeout-gap:%s" % near, "killed:%s" % bool(kills)],
+                       sample={"case": case, "kills": kills[:2]})
+    finally:
+        WT.time, A.time = saved
+        if tmp is not None:
+            tmp.close()
 
 
 def run_idle_period(case):
@@ -110,6 +218,8 @@ def run_case(case):
         return c11_real.run_case(case)
     if case.get("engine") == "Tidle":
         return run_idle_period(case)
+    if case.get("engine") == "H":
+        return run_heartbeat_file(case)
     T0 = case["timeout"]
     # the timeout may change at a reload: deadlines for hung workers use the largest value ever configured (lenient),
     # the "healthy workers are never killed" clause holds for every value
